@@ -2,6 +2,7 @@
    the extracted inductive). *)
 Require Import MV.Base.Prelude MV.Base.CInt MV.Base.Index MV.Base.BorderSpec.
 Require Import MV.Gen.Scalar_gen MV.Model.Filter MV.Model.Morph MV.Model.Convolve MV.Model.Filters MV.Model.Labeled MV.Model.Label MV.Model.Extrema MV.Model.Watershed MV.Model.Distance MV.Model.Threshold MV.Model.Topology MV.Model.Wavelet MV.Model.Interp MV.Model.Texture MV.Gen.Tables_gen MV.Gen.PyThresh_gen MV.Base.QHelp MV.Base.Renumber.
+Require Import MV.Model.UnionFind.
 Require Import QArith.
 Require Extraction.
 Require Import ExtrOcamlBasic.
@@ -16,7 +17,7 @@ Extraction "model.ml"
   rank_filter median_rank mean_filter template_match find2d samples_spec ssd_spec count_lt count_le
   labeled_sum labeled_max labeled_min region relabel is_same_labeling same_labeling_spec remove_regions
   borders border borders_spec bbox_generic bbox_fast2 bbox_spec bbox_labeled_spec fullhistogram count_eq com_sums
-  label label_pairs
+  label label_pairs uf_label
   locmm locmm_spec regmm regmm_spec close_holes close_holes_spec hitmiss hitmiss_spec
   cwatershed flood_spec
   distance distance_spec gvoronoi dt1d minplus1d
